@@ -129,7 +129,7 @@ def success(p):
 def run(chk, tier):
     P = Prog("default")
     chk.configs.add("default")
-    for r in (r_mustread, r_verify_sets, r_ambiguous_pick, r_who_writes, r_setter_boxes, r_setter_fields, r_resolve_year, r_absint):
+    for r in (r_mustread, r_verify_sets, r_ambiguous_pick, r_offset_used, r_who_writes, r_setter_boxes, r_setter_fields, r_resolve_year, r_absint):
         chk.guarded(r, P, tier)
     chk.assume("that resolution succeeds exactly on the documented sufficient combinations, and the error classification (not enough / impossible / out of range), are not decided")
     return {
@@ -239,6 +239,34 @@ def r_ambiguous_pick(chk, P, tier):
             ok = ok and len(checks) == 2
         chk.expect(ok, "Ok(%s candidate %s)" % (variant, x[2] if x[0] == "field" else "?"), "to_datetime_with_timezone returns %s although the offset checks on this path were %s" % (
             pp(x)[-60:], sorted((pp(k)[-24:], v) for k, v in checks.items())), loc=P.loc(fn))
+
+
+def r_offset_used(chk, P, tier):
+    """a supplied offset is never replaced by the default: to_datetime builds its FixedOffset from self.offset whenever that field is set; the constant 0
+    is used only on paths that found self.offset == None"""
+    chk.rule("PICK.offset_default", "to_datetime uses the default offset 0 only on paths where the offset field was tested and found empty", floor=2)
+    fn = F + "to_datetime"
+    fs = fields(P)
+    f_off = fs.index("offset")
+    oks = [p for p in Sym(P, fn).paths(max_paths=5000) if p.end[0] == "return" and result_variant(p.ret)[0] == "Ok"]
+    if not oks:
+        raise AnchorLost("to_datetime: no Ok path")
+    n = 0
+    for p in oks:
+        for c in p.calls:
+            if not (isinstance(c[1], str) and c[1].endswith("FixedOffset::east_opt")):
+                continue
+            n += 1
+            a = c[2][0]
+            from_field = any(x[0] == "field" and x[2] == f_off and x[1] in (("deref", ("arg", 1)), ("arg", 1)) for x in walk_terms(a))
+            if from_field:
+                chk.ok("offset from the field #%d" % n)
+                continue
+            none_seen = any(c2[0][0] == "switch" and c2[1][0] == "discr" and c2[1][1] == ("field", ("deref", ("arg", 1)), f_off) and (c2[2] == 0 or (isinstance(c2[2], tuple) and 1 in c2[2][1]))
+                            for c2 in p.conds)
+            chk.expect(none_seen, "default offset #%d" % n, "to_datetime builds the result with offset %s on a path that did not find the offset field empty (a supplied offset is ignored)" % pp(a)[:30], loc=P.loc(fn))
+    if n < 2:
+        raise AnchorLost("to_datetime: %d east_opt calls on Ok paths" % n)
 
 
 def r_who_writes(chk, P, tier):
